@@ -87,7 +87,12 @@ def check(ctx, pcirc, mons, sweep, exc, replay, lossless=False):
                 return False
             pin_tot += pi_
             pout_tot += po_
-        if lossless and not any(c in mons for (_, c, _) in pcirc["exposed"]):
+        linked_pins = {(a_, p_) for (a_, p_, b_, q_) in pcirc["links"]} | {(b_, q_) for (a_, p_, b_, q_) in pcirc["links"]}
+        closed = all((c_, p_) in linked_pins for c_ in mons for p_ in pcirc["comps"][c_]["pins"])
+        # balance only when the monitored part can exchange power through the monitored links alone:
+        # no exposed pin of its own and no dangling (unexposed free) pin either
+        if lossless and closed and not any(c in mons for (_, c, _) in pcirc["exposed"]):
+            ctx.tag("power-balance-checked")
             if abs(pin_tot - pout_tot) > 1e-8 * max(1.0, cond) * max(1.0, pin_tot):
                 ctx.violation("C10:power-balance", f"lossless monitored part without exposed pins: power in {pin_tot:.9f} != out {pout_tot:.9f}", replay)
                 return False
